@@ -288,13 +288,31 @@ func drawCase(t *rapid.T, maxBatches int) *Case {
 	nb := rapid.IntRange(1, maxBatches).Draw(t, "nbatches")
 	for b := 0; b < nb; b++ {
 		n := rapid.IntRange(0, 8).Draw(t, "nq")
+		if rapid.IntRange(0, 4).Draw(t, "bigbatch") == 0 {
+			n = rapid.IntRange(9, 40).Draw(t, "nqbig")
+		}
 		invalidAt := -1
 		if n > 0 && rapid.IntRange(0, 4).Draw(t, "hasinvalid") == 0 {
 			invalidAt = rapid.IntRange(0, n-1).Draw(t, "invalidAt")
 		}
 		var batch []Q
 		for i := 0; i < n; i++ {
-			batch = append(batch, drawQ(t, pool, c.Data.Recipe != nil, i == invalidAt))
+			q := drawQ(t, pool, c.Data.Recipe != nil, i == invalidAt)
+			if i > 0 && i != invalidAt && rapid.IntRange(0, 3).Draw(t, "twin") == 0 {
+				// same expression as an earlier member, different group-by / id
+				// (members of a batch must not be confused with each other)
+				twin := batch[rapid.IntRange(0, i-1).Draw(t, "twinof")]
+				if !d.Rejects(twin.Expr, nil) {
+					q.Expr = twin.Expr
+					if reflect.DeepEqual(q.GroupBy, twin.GroupBy) && len(pool.Cols) > 0 {
+						q.GroupBy = append(append([]string(nil), twin.GroupBy...), pool.Cols[0])
+						if c.Data.Recipe != nil {
+							q.GroupBy = q.GroupBy[len(q.GroupBy)-1:]
+						}
+					}
+				}
+			}
+			batch = append(batch, q)
 		}
 		c.Batches = append(c.Batches, batch)
 	}
